@@ -65,7 +65,7 @@ def _flow(fa, expr, at=None, _seen=None, _out=None):
     return out
 
 
-def _backward_slice(fa, seeds, stmts=(), control_dependence=True):
+def _backward_slice(fa, seeds, stmts=(), control_dependence=True, nested=True):
     """Everything the values of `seeds` [(expression, CFG node)] can depend on inside the function, as {id(node): node}:
     their sub-expressions; for every local read, the values assigned by the definitions that reach the read AND what is put
     into that local in place (method calls on it, stores through it); the tests of the branches and the iterables of the
@@ -126,7 +126,7 @@ def _backward_slice(fa, seeds, stmts=(), control_dependence=True):
                     for x in exprs:
                         work.append((x, fa.nodes(st)[0]))
                     control(st)
-            if isinstance(n, ast.Call) and isinstance(n.func, ast.Name) and n.func.id in fa.fi.nested and n.func.id not in seen_fn:
+            if nested and isinstance(n, ast.Call) and isinstance(n.func, ast.Name) and n.func.id in fa.fi.nested and n.func.id not in seen_fn:
                 seen_fn.add(n.func.id)
                 sub = fa.fi.nested[n.func.id].node
                 a_ = sub.args
@@ -151,6 +151,12 @@ def _alternatives(fa, expr, at, depth=6):
         return [(expr, at)]
     if isinstance(expr, ast.IfExp):
         return _alternatives(fa, expr.body, at, depth - 1) + _alternatives(fa, expr.orelse, at, depth - 1)
+    if isinstance(expr, ast.Call) and isinstance(expr.func, ast.Name) and expr.func.id == "getattr" and len(expr.args) == 2 and not expr.keywords:
+        # getattr(x, <name>) where <name> ranges over literal strings reads like x.<each of them>
+        names = _alternatives(fa, expr.args[1], at, depth - 1)
+        if names and all(A.const_str(e) is not None and A.const_str(e).isidentifier() for (e, _a) in names):
+            return [(ast.copy_location(ast.Attribute(value=expr.args[0], attr=A.const_str(e), ctx=ast.Load()), expr), at) for (e, _a) in names]
+        return [(expr, at)]
     if isinstance(expr, ast.Name):
         ds = fa.df.reaching(at, expr.id)
         out = []
@@ -695,6 +701,87 @@ def _digest_fed_and_returned(fa, pred):
     return False
 
 
+class _CodeHasher:
+    """The functions that turn a code object into a digest, found by WHAT THEY DO (the reference tree has one function
+    nested in fn_code_hash; it may as well be one or several module-level functions taking the salt and the environment as
+    parameters):
+      outer    FA of fn_code_hash
+      dig      FA of the digester: the function that reads `<its parameter>.co_code` and feeds a hasher
+      obj      the digester's code-object parameter
+      entries  {function name: parameter}: the digester and the functions that hand their parameter on to it (a dispatcher
+               `code object -> digest, anything else -> description`): calling one of them on a code object digests it
+      funcs    {function name: FuncInfo} of all candidates (nested in fn_code_hash, or module-level and reachable from it)"""
+
+    def __init__(self, ck):
+        self.ck = ck
+        self.outer = FA(ck, CH + ".fn_code_hash")
+        mod = ck.repo.module(CH)
+        funcs = dict(self.outer.fi.nested)
+        work = [self.outer.fi.node] + [f.node for f in funcs.values()]
+        while work:
+            cur = work.pop()
+            for c in ast.walk(cur):
+                if isinstance(c, ast.Call) and isinstance(c.func, ast.Name) and c.func.id in mod.functions and c.func.id not in funcs and c.func.id != self.outer.fi.name:
+                    funcs[c.func.id] = mod.functions[c.func.id]
+                    work.append(mod.functions[c.func.id].node)
+        self.funcs = funcs
+        digs = [(f, x.value.id) for f in funcs.values() for x in A.walk_body(f.node)
+                if isinstance(x, ast.Attribute) and x.attr == "co_code" and isinstance(x.value, ast.Name) and x.value.id in f.params]
+        ck.need(len({f.qual for (f, _o) in digs}) == 1, "fn_code_hash: nested code-object hasher not found (expected one function, nested in fn_code_hash or called "
+                                                        "from it, that reads `.co_code` of its parameter; found %d)" % len({f.qual for (f, _o) in digs}))
+        self.dig = FA(ck, digs[0][0])
+        self.obj = digs[0][1]
+        self.entries = {self.dig.fi.name: self.obj}
+        changed = True
+        while changed:
+            changed = False
+            for f in funcs.values():
+                if f.name in self.entries:
+                    continue
+                for c in A.body_calls(f.node):
+                    if isinstance(c.func, ast.Name) and c.func.id in self.entries:
+                        a_ = self.arg(c, c.func.id, self.entries[c.func.id])
+                        if isinstance(a_, ast.Name) and a_.id in f.params:
+                            self.entries[f.name] = a_.id
+                            changed = True
+                            break
+
+    def arg(self, call, fname, param):
+        """the argument bound to `param` in a call of unit function `fname`"""
+        ps = self.funcs[fname].params
+        return A.arg_or_kw(call, ps.index(param), param) if param in ps else None
+
+    def hashes_code(self, call, var):
+        """is `call` an application of the hasher (the digester or a dispatcher in front of it) to the variable `var`?"""
+        if not (isinstance(call, ast.Call) and isinstance(call.func, ast.Name) and call.func.id in self.entries):
+            return False
+        a_ = self.arg(call, call.func.id, self.entries[call.func.id])
+        return isinstance(a_, ast.Name) and a_.id == var
+
+    def stands_for(self, fi, name, _busy=None):
+        """The parameter of fn_code_hash that `name`, read inside unit function `fi`, stands for: a variable of the enclosing
+        fn_code_hash (nested function), or a parameter that every call site inside the unit binds to the same thing."""
+        busy = _busy if _busy is not None else set()
+        if fi is self.outer.fi:
+            return name if name in fi.params else None
+        if name not in fi.params:
+            if fi.parent is not None:
+                return self.stands_for(fi.parent, name, busy)
+            return None
+        if (fi.qual, name) in busy:
+            return "*"
+        busy.add((fi.qual, name))
+        got = set()
+        for caller in [self.outer.fi] + list(self.funcs.values()):
+            for c in A.body_calls(caller.node):
+                if isinstance(c.func, ast.Name) and c.func.id == fi.name and self.funcs.get(fi.name) is fi:
+                    a_ = self.arg(c, fi.name, name)
+                    got.add(self.stands_for(caller, a_.id, busy) if isinstance(a_, ast.Name) else None)
+        busy.discard((fi.qual, name))
+        got.discard("*")
+        return next(iter(got)) if len(got) == 1 else None
+
+
 # --------------------------------------------------------------------------------- C01.R1
 def check_hash_input_coverage(ck, R):
     ck.rule(R, "hash-input coverage: every code-object attribute the interpreter consults when running a function, and "
@@ -704,10 +791,8 @@ def check_hash_input_coverage(ck, R):
             continue
         if a not in CODE_RELEVANT and a not in CODE_DEBUG_ONLY:
             raise AnalysisError("code object attribute %r of this interpreter is not classified in the checker's table" % a)
-    outer = FA(ck, CH + ".fn_code_hash")
-    ck.need("hash_if_code_object" in outer.fi.nested, "fn_code_hash: nested code-object hasher not found")
-    h = FA(ck, outer.fi.nested["hash_if_code_object"])
-    obj = h.fi.params[0]
+    unit = _CodeHasher(ck)
+    outer, h, obj = unit.outer, unit.dig, unit.obj
     # the variable whose JSON feeds the digest
     ups = [c for c in h.calls("update")]
     feed = None
@@ -752,10 +837,11 @@ def check_hash_input_coverage(ck, R):
                                 work.append((d.value, d.node))
         return out
 
-    for s in h.stmts(ast.Assign):
-        if any(isinstance(t, ast.Name) and t.id == feed for t in s.targets):
-            for e in roots(s.value):
-                scan(e, s)
+    feed_assigns = [s_ for s_ in h.stmts((ast.Assign, ast.AnnAssign)) if getattr(s_, "value", None) is not None
+                    and any(isinstance(t, ast.Name) and t.id == feed for t in (s_.targets if isinstance(s_, ast.Assign) else [s_.target]))]
+    for s in feed_assigns:
+        for e in roots(s.value):
+            scan(e, s)
     for c in h.calls("append") + h.calls("extend"):
         if A.norm(A.call_recv(c)) == feed:
             for a in c.args:
@@ -777,7 +863,7 @@ def check_hash_input_coverage(ck, R):
         if not (isinstance(call, ast.Call) and call.args and isinstance(call.args[0], ast.Name) and call.args[0].id == var):
             return False
         f = call.func
-        if isinstance(f, ast.Name) and f.id in (h.fi.name, h.node.name):
+        if unit.hashes_code(call, var):
             return True
         if isinstance(f, ast.Name) and depth < 3:
             # a local alias of the hasher
@@ -795,9 +881,8 @@ def check_hash_input_coverage(ck, R):
 
     rec = False
     feed_flow = {}
-    for s in h.stmts(ast.Assign):
-        if any(isinstance(t, ast.Name) and t.id == feed for t in s.targets):
-            _flow(h, s.value, None, None, feed_flow)
+    for s in feed_assigns:
+        _flow(h, s.value, None, None, feed_flow)
     for c in h.calls("append") + h.calls("extend"):
         if A.norm(A.call_recv(c)) == feed:
             for a in c.args:
@@ -810,7 +895,11 @@ def check_hash_input_coverage(ck, R):
     ck.ob(R, h.key(None, "consts-recursive"), rec, "constants are hashed recursively (nested functions, lambdas, comprehensions)" if rec else
           "co_consts is not hashed through the hasher itself: edits inside nested code objects are invisible", h.where())
     # salt / environment
-    ok_env = any(A.norm(c.args[0]) == "environment" for c in ups if c.args) and any("salt" in A.norm(c) for c in ups)
+    def fed(param):
+        """some update of the digester is given (something built from) what stands for fn_code_hash's parameter `param`"""
+        return any(isinstance(x, ast.Name) and unit.stands_for(h.fi, x.id) == param for c in ups for a_ in c.args for x in ast.walk(a_))
+
+    ok_env = fed("environment") and fed("salt")
     ck.ob(R, h.key(None, "salt-and-environment"), ok_env, "salt and environment feed the digest" if ok_env else
           "the version salt / environment bytes no longer feed the code digest", h.where())
     # function-level defaults
@@ -1210,10 +1299,16 @@ def check_recompute_from_scratch(ck, R):
                 stale.append((e, "`%s`%s" % (A.short(e, 50), (" (= `%s`)" % fa.xnorm(e, at)[:90]) if fa.xnorm(e, at) != A.norm(e) else "")))
         if asg_nodes is not None and alts_:
             # the field is assigned in this recomputation before it is read, in the same iteration when both are in one loop
-            head = loop_vars.get(fv)
             for fn_ in feed_nodes:
-                in_loop = head is not None and fa.inside(piece, fa.cfg.node(head).ast)
-                okp = fa.cfg.must_pass(asg_nodes, fn_, start=head, edge_ok=lambda s_, d_, l_: d_ != head) if in_loop else fa.cfg.must_pass(asg_nodes, fn_)
+                lp_ = fa.enclosing(piece, (ast.For, ast.AsyncFor))
+                head = fa.nodes(lp_)[0] if lp_ is not None and fa.nodes(lp_) and isinstance(lp_.target, ast.Name) and lp_.target.id == fv else None
+                if head is not None:
+                    # read in the loop that assigns it: assigned earlier in the same iteration
+                    okp = fa.cfg.must_pass(asg_nodes, fn_, start=head, edge_ok=lambda s_, d_, l_, head=head: d_ != head)
+                else:
+                    # read after a loop over the same collection that assigns it in every iteration
+                    same = [h_ for h_ in loop_vars.values() if fa.xnorm(fa.cfg.node(h_).ast.iter, h_) == fa.xnorm(feed["iter"], feed["iter_at"])]
+                    okp = any(_every_iteration_passes(fa, h_, asg_nodes) and fa.cfg.must_pass([h_], fn_) for h_ in same)
                 if not okp:
                     stale.append((x, "`%s` as it was before this recomputation (on some path it is read before being assigned)" % A.norm(x)))
     ok = not stale
@@ -1498,7 +1593,7 @@ def check_enforcement(ck, R):
                         and v.xnorm(x.left, n.id) == "self.fn_reference().qualified_name":
                     dv |= v.df.deps(x.comparators[0], n.id)
                     # ... and what is put into that set in place (a set filled by a loop, .update(...), |=)
-                    for y in _backward_slice(v, [(x.comparators[0], n.id)], control_dependence=False).values():
+                    for y in _backward_slice(v, [(x.comparators[0], n.id)], control_dependence=False, nested=False).values():
                         if isinstance(y, ast.Call) and A.call_attr(y):
                             dv.add("call:" + A.call_attr(y))
                             if A.call_attr(y) == "getattr" and len(y.args) >= 2 and A.const_str(y.args[1]):
@@ -1611,6 +1706,11 @@ def _text_is_canonical(fa, e, at, renderers, depth=5):
     if isinstance(e, ast.BinOp) and isinstance(e.op, (ast.Add, ast.Mod)):
         return A.str_parts(e) is not None or (_text_is_canonical(fa, e.left, at, renderers, depth) and _text_is_canonical(fa, e.right, at, renderers, depth))
     if isinstance(e, ast.Name) and depth > 0 and not _bound_in_expression(fa, e):
+        ds = fa.df.reaching(at, e.id)
+        if ds and any(d.kind == "aug" for d in ds):
+            # text built up in steps (`s = <text>` ... `s += <text>`): canonical if every step is
+            return all(d.kind in ("assign", "aug") and d.value is not None and (d.kind != "aug" or isinstance(d.stmt.op, ast.Add))
+                       and _text_is_canonical(fa, d.value, d.node, renderers, depth - 1) for d in ds)
         alts_ = _alternatives(fa, e, at)
         if all(not (isinstance(x, ast.Name) and x.id == e.id) for (x, _a) in alts_):
             return all(_text_is_canonical(fa, x, a_, renderers, depth - 1) for (x, a_) in alts_)
@@ -1724,26 +1824,27 @@ def check_determinism_taint(ck, R):
           "ENVIRONMENT_HASH_BYTES depends on the machine / process or is dumped without sorted keys", cfgm.relpath)
     sinks += 1
     # constants: repr only after canonicalisation of sets
-    outer = FA(ck, CH + ".fn_code_hash")
-    h = FA(ck, outer.fi.nested["hash_if_code_object"])
-    obj = h.fi.params[0]
-    for r in h.returns():
-        v = r.value
-        if isinstance(v, ast.Call) and A.call_attr(v) in ("repr", "str", "format") and v.args and A.norm(v.args[0]) == obj:
-            ck.ob(R, h.key(r, "const-repr"), False,
-                  "code constants are serialised with repr(): a frozenset constant (from `x in {...}`) prints in hash-seed order, "
-                  "so the version differs between processes", h.where(r))
-        elif isinstance(v, ast.Call) and isinstance(v.func, ast.Name) and v.args and A.norm(v.args[0]) == obj and A.call_attr(v) != h.fi.name:
-            ok = _stable_repr_function(ck, v.func.id)
-            ck.ob(R, h.key(r, "const-repr"), ok, "constants go through %s, which sorts set elements" % v.func.id if ok else
-                  "constants are serialised by %s, which does not canonicalise set-valued constants" % v.func.id, h.where(r))
+    unit = _CodeHasher(ck)
+    outer = unit.outer
+    entry_fas = [(FA(ck, unit.funcs[nm_]), prm) for nm_, prm in sorted(unit.entries.items())]
+    for (h, obj) in entry_fas:
+        for r in h.returns():
+            v = r.value
+            if isinstance(v, ast.Call) and A.call_attr(v) in ("repr", "str", "format") and v.args and A.norm(v.args[0]) == obj:
+                ck.ob(R, h.key(r, "const-repr"), False,
+                      "code constants are serialised with repr(): a frozenset constant (from `x in {...}`) prints in hash-seed order, "
+                      "so the version differs between processes", h.where(r))
+            elif isinstance(v, ast.Call) and isinstance(v.func, ast.Name) and v.args and A.norm(v.args[0]) == obj and A.call_attr(v) not in unit.entries:
+                ok = _stable_repr_function(ck, v.func.id)
+                ck.ob(R, h.key(r, "const-repr"), ok, "constants go through %s, which sorts set elements" % v.func.id if ok else
+                      "constants are serialised by %s, which does not canonicalise set-valued constants" % v.func.id, h.where(r))
     # the renderers of hashed text are not memoised by equality: `(3, 1, 2) == (3.0, 1.0, 2.0)` and both are
     # tuples, so even a typed lru_cache (typed=True looks at the type of the argument itself only)
     # hands the text rendered for the first to the second; which of two such constants is rendered
     # first depends on definition / import order, i.e. on the process
     n_cached = 0
     mod_funcs = ck.repo.module(CH).functions
-    roots = {A.call_attr(r.value) for r in h.returns() if isinstance(r.value, ast.Call) and isinstance(r.value.func, ast.Name)} & set(mod_funcs)
+    roots = {A.call_attr(r.value) for (h, _o) in entry_fas for r in h.returns() if isinstance(r.value, ast.Call) and isinstance(r.value.func, ast.Name)} & set(mod_funcs)
     closure = set(roots) | {"fn_code_hash"}
     work = list(closure)
     while work:
@@ -1769,7 +1870,7 @@ def check_determinism_taint(ck, R):
     # test on the path has established a type whose text is canonical; anything else goes through the renderer
     # recursively or is described by names
     n_sites = 0
-    for fi in [f_ for f_ in ck.repo.module(CH).all_funcs() if f_.parent is None and f_.cls is None and f_.name in closure - {"fn_code_hash"}]:
+    for fi in [f_ for f_ in ck.repo.module(CH).all_funcs() if f_.parent is None and f_.cls is None and f_.name in closure - {"fn_code_hash"} - set(unit.entries)]:
         fr = FA(ck, fi)
         for (site, operand) in _rendered_operands(fr):
             st = fr.stmt_of(site)
@@ -1940,7 +2041,7 @@ def check_ordered_iteration(ck, R):
         over = [n for n in ("__lt__", "__eq__", "__hash__") if n in cls.methods]
         ck.ob(R, cls.qual + "::no-override", not over, "%s inherits the ordering" % cls.name if not over else
               "%s overrides %s" % (cls.name, over), A.loc(cls, cls.node))
-    h = FA(ck, FA(ck, CH + ".fn_code_hash").fi.nested["hash_if_code_object"])
+    h = _CodeHasher(ck).dig
     comps = [n for n in A.walk_body(h.node) if isinstance(n, (ast.ListComp, ast.GeneratorExp, ast.SetComp))]
     okc = all(A.norm(c.generators[0].iter).endswith(".co_consts") for c in comps) and not any(isinstance(c, ast.SetComp) for c in comps)
     ck.ob(R, h.key(None, "consts-in-tuple-order"), okc, "constants are visited in their tuple order" if okc else
@@ -2960,7 +3061,7 @@ def check_field_call_lint(ck, R):
 
 
 # --------------------------------------------------------------------------------- C14
-def _unwrapped_param(fa, name, at):
+def _unwrapped_param(fa, name, at, _depth=4):
     """If local `name` at CFG node `at` holds parameter P after `while hasattr(v, '__wrapped__'): v = v.__wrapped__` (every
     reaching definition is `v = P` or `v = v.__wrapped__`), or `inspect.unwrap(P)`: P, else None."""
     ds = fa.df.reaching(at, name)
@@ -2980,6 +3081,13 @@ def _unwrapped_param(fa, name, at):
                 return None
             base = v.id
         elif isinstance(v, ast.Attribute) and v.attr == "__wrapped__" and isinstance(v.value, ast.Name) and v.value.id == name:
+            steps += 1
+        elif isinstance(v, ast.Name) and v.id != name and fa.df.is_local(v.id) and _depth > 0 and _unwrapped_param(fa, v.id, d.node, _depth - 1) is not None:
+            # a copy of a local that already holds the unwrapped parameter
+            inner = _unwrapped_param(fa, v.id, d.node, _depth - 1)
+            if base not in (None, inner):
+                return None
+            base = inner
             steps += 1
         elif isinstance(v, ast.Call) and A.call_attr(v) == "unwrap" and len(v.args) == 1 and isinstance(v.args[0], ast.Name) and v.args[0].id in fa.fi.params:
             if base not in (None, v.args[0].id):
@@ -3086,8 +3194,22 @@ def check_dotted_names(ck, R):
     # filtering loop alike).  Anything else narrows the name set.
     WANT = {"fn.__code__.co_varnames", "fn.__code__.co_cellvars"}
     unwrapped_bases = set()
-    du0 = [c for c in fa.calls("difference_update") if isinstance(A.call_recv(c), ast.Name) and len(c.args) == 1]
-    RES = A.call_recv(du0[0]).id if du0 else "result"
+    def is_res(e, at, depth=4):
+        """does `e` designate the set in which the visitor gathered the names (the visitor instance's field, through any
+        local alias)?"""
+        if e is None or at is None or depth <= 0:
+            return False
+        x = fa.expand(e, at)
+        if isinstance(x, ast.Attribute) and x.attr in ACC and isinstance(x.value, ast.Call) and A.call_attr(x.value) == cls.name:
+            return True
+        if isinstance(e, ast.Name):
+            alts_ = _alternatives(fa, e, at)
+            if alts_ and not any(isinstance(a_, ast.Name) and a_.id == e.id for (a_, _n) in alts_):
+                return all(is_res(a_, n_, depth - 1) for (a_, n_) in alts_)
+        return False
+
+    # the locals that stand for that set
+    RESNAMES = {d.name for ds in fa.df.gen.values() for d in ds if d.kind == "assign" and d.value is not None and "." not in d.name and is_res(d.value, d.node)}
 
     def local_sources(e, at, depth=6):
         """where the elements of a set-valued expression come from (attribute chains)"""
@@ -3138,7 +3260,7 @@ def check_dotted_names(ck, R):
     def chains_rooted_at_locals(arg, at):
         """is `arg` {x for x in RES if ['.' in x and] <first component of x> in <the locals>}?"""
         spec = _collection_spec(fa, arg, at)
-        if spec is None or not isinstance(spec["iter"], ast.Name) or spec["iter"].id != RES or A.norm(spec["elt"]) != spec["var"]:
+        if spec is None or not is_res(spec["iter"], spec["iter_at"]) or A.norm(spec["elt"]) != spec["var"]:
             return False
         member = 0
         for (t, pol) in spec["atoms"]:
@@ -3156,16 +3278,21 @@ def check_dotted_names(ck, R):
     for st in fa.stmts():
         if not fa.nodes(st):
             continue
-        if isinstance(st, ast.Assign) and any(isinstance(t, ast.Name) and t.id == RES for t in st.targets):
-            if not (isinstance(st.value, ast.Attribute) and st.value.attr in ACC and isinstance(st.value.value, ast.Name)
-                    and isinstance(fa.expand(st.value.value, fa.nodes(st)[0]), ast.Call) and A.call_attr(fa.expand(st.value.value, fa.nodes(st)[0])) == cls.name):
-                if isinstance(st.value, ast.BinOp) and isinstance(st.value.op, ast.Sub) and A.norm(st.value.left) == RES:
+        at0 = fa.nodes(st)[0]
+        if isinstance(st, (ast.Assign, ast.AnnAssign)) and getattr(st, "value", None) is not None \
+                and any(isinstance(t, ast.Name) and t.id in RESNAMES for t in (st.targets if isinstance(st, ast.Assign) else [st.target])):
+            if not is_res(st.value, at0):
+                if isinstance(st.value, ast.BinOp) and isinstance(st.value.op, ast.Sub) and is_res(st.value.left, at0):
                     reductions.append((st, st.value.right))
                 else:
                     reductions.append((st, None))
-        if isinstance(st, ast.AugAssign) and isinstance(st.target, ast.Name) and st.target.id == RES:
-            reductions.append((st, st.value if isinstance(st.op, ast.Sub) else None))
-        if isinstance(st, ast.Expr) and isinstance(st.value, ast.Call) and A.norm(A.call_recv(st.value)) == RES \
+        if isinstance(st, ast.AugAssign):
+            tg = st.target
+            hit = (isinstance(tg, ast.Name) and tg.id in RESNAMES) or \
+                (isinstance(tg, ast.Attribute) and is_res(ast.copy_location(ast.Attribute(value=tg.value, attr=tg.attr, ctx=ast.Load()), tg), at0))
+            if hit:
+                reductions.append((st, st.value if isinstance(st.op, ast.Sub) else None))
+        if isinstance(st, ast.Expr) and isinstance(st.value, ast.Call) and A.call_recv(st.value) is not None and is_res(A.call_recv(st.value), at0) \
                 and A.call_attr(st.value) in ("difference_update", "intersection_update", "discard", "remove", "clear", "pop", "symmetric_difference_update"):
             reductions.append((st, st.value.args[0] if A.call_attr(st.value) == "difference_update" and len(st.value.args) == 1 else None))
     klass = {}
@@ -3181,7 +3308,7 @@ def check_dotted_names(ck, R):
             klass[id(st)] = "chains"
         elif spec_ is not None:
             # some selection of RES's own elements is removed, but not by first-component membership
-            klass[id(st)] = "chains?" if isinstance(spec_["iter"], ast.Name) and spec_["iter"].id == RES and A.norm(spec_["elt"]) == spec_["var"] else "other"
+            klass[id(st)] = "chains?" if is_res(spec_["iter"], spec_["iter_at"]) and A.norm(spec_["elt"]) == spec_["var"] else "other"
         else:
             s_ = local_sources(arg, at_)
             klass[id(st)] = "locals" if s_ == WANT else "locals?"
